@@ -181,6 +181,73 @@ func producerOracle(m *MsgDesc, steps [][2]string) string {
 
 func suiteC18(c *Ctx) []Suite {
 	return []Suite{
+		{Name: "producers/refused-renames-and-counts", Gen: func(c *Ctx) []Case {
+			// FillVariables on a message refuses what the list factory refuses: two variables of one
+			// list that end up under one name (a string value renames a list variable), a name that
+			// collides with a nested variable, and a repeat count below zero - alone or next to
+			// ordinary fills; a refused call changes nothing, the producers behind it still work
+			var out []Case
+			u1 := func(v string) *Node { return &Node{Kind: "U", W: 1, Slots: []Slot{{U: 5}, {IsVar: true, Name: v}}} }
+			lv := func(names ...string) []Slot {
+				var s []Slot
+				for _, n := range names {
+					s = append(s, Slot{IsVar: true, Name: n})
+				}
+				return s
+			}
+			flat := func() *Node { return &Node{Kind: "L", Slots: append(lv("status", "payload", "seq"), Slot{Child: u1("a")})} }
+			deep := func() *Node {
+				return &Node{Kind: "L", Slots: []Slot{{Child: &Node{Kind: "A", Str: []byte("hdr")}}, {Child: flat()}, {IsVar: true, Name: "tail"}}}
+			}
+			type fl struct{ k, v string }
+			renames := [][]fl{
+				{{"status", strTok("payload")}}, {{"payload", strTok("status")}}, {{"seq", strTok("status")}},
+				{{"status", strTok("z")}, {"payload", strTok("z")}}, {{"status", strTok("z")}, {"seq", strTok("z")}},
+				{{"status", strTok("z")}, {"payload", strTok("z")}, {"seq", strTok("z")}},
+				{{"status", strTok("a")}}, {{"status", strTok("tail")}}, {{"tail", strTok("status")}}, {{"tail", strTok("a")}},
+				{{"status", strTok("payload")}, {"payload", strTok("status")}}, {{"status", strTok("status")}},
+				{{"status", strTok("fresh")}}, {{"status", strTok("payload")}, {"a", uintTok(8, 7)}},
+				{{"status", strTok("payload")}, {"payload", strTok("other")}},
+			}
+			for _, mk := range []func() *Node{flat, deep} {
+				for _, rn := range renames {
+					m := genMsgDesc(c.R, mk(), 0)
+					parts := []string{fmt.Sprint(len(rn))}
+					for _, f := range rn {
+						parts = append(parts, hxs(f.k), f.v)
+					}
+					fill := "fill " + strings.Join(parts, " ")
+					for _, tail := range []string{" | wait 0 | sess 3 00000009", " | fill 1 " + hxs("a") + " " + uintTok(8, 9) + " | wait 1", " | " + fill + " | sess 1 01020304"} {
+						out = append(out, Case{Op: "mprog " + m.newStep() + " | " + fill + tail, Decisive: true, Nontrivial: true, Tags: []string{"rename-collision"}})
+					}
+				}
+			}
+			ell := func(key string) *Node {
+				return &Node{Kind: "L", Slots: []Slot{{Child: u1("a")}, {Child: &Node{Kind: "A", Str: []byte("end")}}, {IsVar: true, Name: key}}}
+			}
+			nested := func() *Node {
+				return &Node{Kind: "L", Slots: []Slot{{Child: &Node{Kind: "L", Slots: []Slot{{Child: u1("a")}, {IsVar: true, Name: "...[0]"}}}}, {IsVar: true, Name: "...[1]"}}}
+			}
+			for _, cnt := range []int64{-1, -2, -3, -1000, math.MinInt32, math.MinInt64, 0, 1} {
+				for _, key := range []string{"...", "...[0]"} {
+					for _, extra := range []string{"", " " + hxs("a") + " " + uintTok(8, 9)} {
+						m := genMsgDesc(c.R, ell(key), 0)
+						n := 1
+						if extra != "" {
+							n = 2
+						}
+						out = append(out, Case{Op: fmt.Sprintf("mprog %s | fill %d %s %s%s | wait 0 | sess 3 00000009 | fill 1 %s %s", m.newStep(), n, hxs(key), sintTok(0, cnt), extra, hxs("a"), uintTok(8, 3)),
+							Decisive: true, Nontrivial: true, Tags: []string{"negative-count"}})
+					}
+				}
+				for _, which := range [][2]int64{{cnt, 2}, {2, cnt}, {cnt, cnt}} {
+					m := genMsgDesc(c.R, nested(), 0)
+					out = append(out, Case{Op: fmt.Sprintf("mprog %s | fill 2 %s %s %s %s | wait 0 | sess 3 00000009", m.newStep(), hxs("...[0]"), sintTok(0, which[0]), hxs("...[1]"), sintTok(0, which[1])),
+						Decisive: true, Nontrivial: true, Tags: []string{"negative-count"}})
+				}
+			}
+			return out
+		}},
 		{Name: "producers/fill-at-float-edges", Gen: func(c *Ctx) []Case {
 			// FillVariables on a message refuses a float exactly as the factory does: float64 values
 			// around the largest float32, the smallest subnormals, NaN and the infinities, for F4 and F8
@@ -602,7 +669,7 @@ func suiteC12(c *Ctx) []Suite {
 			for i := 0; i < c.N(300); i++ {
 				hdr := make([]byte, pick(c.R, 10, 10, 10, 10, 0, 3, 9))
 				c.R.Read(hdr)
-				sys := make([]byte, pick(c.R, 4, 4, 4, 0, 2, 6))
+				sys := make([]byte, pick(c.R, 4, 4, 4, 0, 1, 2, 3, 5, 6))
 				c.R.Read(sys)
 				sid := c.R.Intn(65536)
 				op := []string{
@@ -845,6 +912,7 @@ func suiteC16(c *Ctx) []Suite {
 			}
 			return out
 		}},
+		{Name: "vars/message-filled-in-one-call", Gen: func(c *Ctx) []Case { return ellipsisOneCall(c, c.N(400)) }},
 		{Name: "vars/after-ellipsis-fills", Gen: func(c *Ctx) []Case { return ellipsisCases(c, c.N(700), 4, 3) }},
 		{Name: "vars/items", Gen: func(c *Ctx) []Case {
 			var out []Case
